@@ -73,7 +73,8 @@ XalanDOMString::XalanDOMString(
 {
     assert(theString != 0);
 
-    if (*theString != 0)
+    // With an explicit count the string may begin with a null character.
+    if (theCount != size_type(npos) ? theCount != 0 : *theString != 0)
     {
         append(theString, theCount);
     }
@@ -183,8 +184,11 @@ XalanDOMString::erase(
 {
     invariants();
 
+    assert(theStartPosition <= length());
+
+    // Like std::basic_string, erase no more than there is.
     const size_type     theActualCount =
-            theCount == size_type(npos) ? length() - theStartPosition : theCount;
+            theCount > length() - theStartPosition ? length() - theStartPosition : theCount;
     assert(theStartPosition + theActualCount <= length());
 
     if (theStartPosition == 0 && theCount >= size())
@@ -652,9 +656,12 @@ XalanDOMString::compare(
 {
     invariants();
 
+    assert(thePosition1 <= length());
+
+    // Like std::basic_string, compare no more than there is.
     return doCompare(
                 c_str() + thePosition1,
-                theCount1,
+                theCount1 > length() - thePosition1 ? length() - thePosition1 : theCount1,
                 theString,
                 theCount2 == size_type(npos) ? length(theString) : theCount2);
 }
